@@ -98,6 +98,24 @@ def gen_cases(tier, seed):
                       'unitary': rng.random() < 0.6, 'thm': thm, 'full': full,
                       'big': [m + 2 * abs(o_r) + 1, n + 2 * abs(o_c) + 2],
                       'out': rng.random() < 0.35, 'scalar_args': rng.random() < 0.5})
+    # families that differ in ONE argument only (same input, same everything else): a transform depends on each of its arguments -
+    # offsets -3..3 on one axis, integer and half-integer shifts on one axis
+    for _ in range(10 if q else 40):
+        m, n = rng.randint(2, 4), rng.randint(2, 4)
+        M, K = rng.randint(2, 5), rng.randint(2, 5)
+        pr, qr = rng.choice(alphas[:8])
+        pc, qc = rng.choice(alphas[:8])
+        N0 = lcm(8, qr * 2, qc * 2)
+        if N0 > 96:
+            continue
+        f = [[pix_terms(rng, N0, 0.05) for _ in range(n)] for _ in range(m)]
+        uni = rng.random() < 0.5
+        base = {'pr': pr, 'qr': qr, 'pc': pc, 'qc': qc, 'sr': 0, 'sc': 0, 'sq': 2, 'or': 0, 'oc': 0, 'M': M, 'K': K}
+        fam = [dict(base, **{'or': o}) for o in range(-3, 4)] + [dict(base, oc=o) for o in range(-3, 4)] + \
+              [dict(base, sr=s_) for s_ in (-4, -2, 2, 4, -1, 1)] + [dict(base, sc=s_) for s_ in (-4, -2, 2, 4, 3)]
+        for g in fam:
+            cases.append({'k': 'fwd', 'N': N0, 'f': f, 'g': g, 'unitary': uni, 'thm': False, 'full': False,
+                          'big': [m + 2 * abs(g['or']) + 1, n + 2 * abs(g['oc']) + 2], 'out': False, 'scalar_args': False, 'family': True})
     # impulse basis on a few geometries (complete by linearity)
     for (m, n) in [(2, 3), (3, 3), (4, 2)] + ([] if q else [(5, 4), (4, 5)]):
         for x in range(m):
@@ -132,6 +150,7 @@ def gen_cases(tier, seed):
                       'out': rng.random() < 0.3, 'scalar_args': False})
     for i, c in enumerate(cases):
         c['id'] = i
+        c['flagform'] = rng.choice(('py', 'py', 'numpy-bool', 'int'))     # the flag is a truth value, however it is spelled
     return cases
 
 
@@ -147,12 +166,13 @@ def call_impl(lentil, c):
     if c['out']:
         out = np.full((g['M'], g['K']), 7.5 - 3.25j, dtype=complex)
     fin = f.copy()
+    flag = {'py': bool, 'numpy-bool': np.bool_, 'int': int}[c.get('flagform', 'py')](c['unitary'])
     if c['k'] == 'fwd':
         res = lentil.fourier.dft2(fin, alpha, shape=shape, shift=shift, offset=(g['or'], g['oc']),
-                                  unitary=c['unitary'], out=out)
+                                  unitary=flag, out=out)
     else:
         # idft2 "called with the same sampling and the same normalisation flag"; shape defaults to F.shape
-        res = lentil.fourier.idft2(fin, alpha, shape=shape if c.get('padded') else None, unitary=c['unitary'], out=out)
+        res = lentil.fourier.idft2(fin, alpha, shape=shape if c.get('padded') else None, unitary=flag, out=out)
     return f, fin, res, out
 
 
@@ -160,7 +180,7 @@ def sig_of(c, kind):
     g = c['g']
     return {'fn': 'dft2' if c['k'] == 'fwd' else 'idft2', 'kind': kind, 'unitary': c['unitary'], 'out': c['out'],
             'aniso': (g['pr'] * g['qc'] != g['pc'] * g['qr']), 'shift': bool(g['sr'] or g['sc']),
-            'offset': bool(g['or'] or g['oc']), 'full': c['full']}
+            'offset': bool(g['or'] or g['oc']), 'full': c['full'], 'flag_form': c.get('flagform', 'py')}
 
 
 def check_case(ctx, lentil, c, e):
